@@ -27,8 +27,10 @@ NoMut == [kind |-> "base", pos |-> 0, w |-> 0, fk |-> "", val |-> <<>>]
 NoTree == [none |-> TRUE]
 
 \* slice lengths on which a type is exercised
+\* (multiples of the alignment, and lengths that are not: one more, half way, one less than the next multiple)
 LSet(t) == IF IsSized(t) THEN {StaticSize(t)}
-           ELSE {MinSize(t) + j * Align(t) : j \in 0..LSteps} \cup {MinSize(t) + LSteps * Align(t) + 1}
+           ELSE {MinSize(t) + j * Align(t) : j \in 0..LSteps}
+                \cup {MinSize(t) + LSteps * Align(t) + k : k \in {1, Align(t) \div 2, Align(t) - 1} \ {0}}
 
 (***************************************************************************)
 (* Header fields of an image.                                              *)
@@ -36,15 +38,16 @@ LSet(t) == IF IsSized(t) THEN {StaticSize(t)}
 RECURSIVE Hdr(_, _, _, _)
 HdrFields(fs, vals, total, base) ==
   LET offs == FieldOffs(fs) IN UNION { Hdr(vals[i], fs[i], total - offs[i], base + offs[i]) : i \in DOMAIN fs }
-HF(pos, w, fk, bigend) == [pos |-> pos, w |-> w, fk |-> fk, be |-> bigend]
+HF(pos, w, fk, bigend) == [pos |-> pos, w |-> w, fk |-> fk, be |-> bigend, cap |-> -1]
+HFC(pos, w, fk, bigend, cap) == [pos |-> pos, w |-> w, fk |-> fk, be |-> bigend, cap |-> cap]
 Hdr(x, t, l, base) ==
   CASE t.k \in {"prim", "pint", "pfloat", "unit"} -> {}
     [] t.k = "bool" -> {HF(base, 1, "bool", FALSE)}
     [] t.k = "arr"  -> LET es == StaticSize(t.elem[1]) IN UNION { Hdr(x[i], t.elem[1], es, base + (i - 1) * es) : i \in DOMAIN x }
     [] t.k = "vec"  -> LET es == StaticSize(t.elem[1])  d == VecDataOffset(t) IN
-                       {HF(base, t.lt[1].size, "len", t.lt[1].be)}
+                       {HFC(base, t.lt[1].size, "len", t.lt[1].be, x.cap)}
                        \cup UNION { Hdr(x.items[i], t.elem[1], es, base + d + (i - 1) * es) : i \in DOMAIN x.items }
-    [] t.k = "str"  -> {HF(base, t.lt[1].size, "len", t.lt[1].be)}
+    [] t.k = "str"  -> {HFC(base, t.lt[1].size, "len", t.lt[1].be, x.cap)}
                        \cup { HF(base + StrDataOffset(t) + i - 1, 1, "utf8", FALSE) : i \in DOMAIN x.bytes }
     [] t.k = "flex" ->
          LET os == FlexOffsetSize(t)  V == FlexView(t, l)  n == Len(x.items)
@@ -68,7 +71,8 @@ SubVals(h, cur) ==
   CASE h.fk \in {"len", "off", "tag"} ->
          LET enc(n) == IF h.be THEN Rev(DigitsLE(n, h.w)) ELSE DigitsLE(n, h.w)
              c == NumLE(IF h.be THEN Rev(cur) ELSE cur)
-         IN ({enc(n) : n \in NumSubs \cup {c + 1} \cup (IF c > 0 /\ c < BIG THEN {c - 1} ELSE {})} \cup {Rep(h.w, 255)}) \ {cur}
+             capv == IF h.cap >= 0 /\ h.cap < BIG - 4 THEN {h.cap, h.cap + 1, h.cap + 2, h.cap + 3} ELSE {}      \* just at / beyond the capacity
+         IN ({enc(n) : n \in NumSubs \cup capv \cup {c + 1} \cup (IF c > 0 /\ c < BIG THEN {c - 1} ELSE {})} \cup {Rep(h.w, 255)}) \ {cur}
     [] h.fk = "bool" -> {<<2>>, <<128>>, <<255>>}
     [] h.fk = "utf8" -> {<<128>>, <<195>>, <<255>>, <<65>>} \ {cur}
 
@@ -176,6 +180,38 @@ Case == [k |-> "dec", id |-> Catalog[ci].id, addr |-> addr, bs |-> bs, mut |-> m
          ref |-> IF HasTree THEN [val |-> v] ELSE [val |-> <<>>],
          c06 |-> C06Rec, c19 |-> C19Rec]
 Emit == mut.kind # "seed" => PrintT(<<"CASE", ToJson(Case)>>)
+
+\* all theorems and the emission in one invariant, so that the reference answer is evaluated once per state
+All ==
+  mut.kind # "seed" =>
+    LET r == R
+        sz == IF HasTree THEN Size(v, T) ELSE 0
+        msgimg == IF HasTree THEN SubSeq(Enc(v, T, L), 1, sz) ELSE <<>>
+        need == LastData(msgimg)
+    IN
+    /\ (Base => RoundTrip(v, T, L) /\ SizeSufficient(v, T, L) /\ LenLeCap(v, T))
+    /\ (r.ok \/ r.cls \in {"size", "align", "content"})
+    /\ ((mut.kind = "cut" /\ mut.pos < sz) =>
+          IF r.ok THEN SameContent(r.val, v, T) /\ mut.pos >= need ELSE r.cls = "size")
+    /\ (((mut.kind = "cut" /\ mut.pos >= sz) \/ mut.kind = "ext") =>
+          r.ok /\ SameContent(r.val, v, T) /\ Size(r.val, T) = sz)
+    /\ (mut.kind = "mis" => ~r.ok /\ r.cls = "align")
+    /\ (r.ok => /\ LenLeCap(r.val, T)
+                /\ Size(r.val, T) <= ViewLen(T, Len(bs))
+                /\ LET r2 == Validate(T, SubSeq(bs, 1, ViewLen(T, Len(bs))), 0) IN r2.ok /\ SameContent(r2.val, r.val, T))
+    /\ LET c19on == mut.kind = "sub" /\ mut.fk \in {"bool", "tag", "utf8"} /\ ~r.ok /\ r.cls = "content"
+                     /\ r.pos <= mut.pos + mut.w - 1 /\ r.pos + MaxI(r.plen, 1) - 1 >= mut.pos - 3
+       IN PrintT(<<"CASE", ToJson(
+            [k |-> "dec", id |-> Catalog[ci].id, addr |-> addr, bs |-> bs, mut |-> mut,
+             exp |-> [ok |-> r.ok, cls |-> r.cls, kind |-> r.kind, pos |-> r.pos,
+                      val |-> IF r.ok THEN r.val ELSE <<>>,
+                      size |-> IF r.ok THEN Size(r.val, T) ELSE 0,
+                      view |-> IF r.ok THEN ViewLen(T, Len(bs)) ELSE 0],
+             ref |-> IF HasTree THEN [val |-> v] ELSE [val |-> <<>>],
+             c06 |-> IF HasTree /\ mut.kind \in {"cut", "ext", "base"}
+                       THEN [mode |-> IF mut.kind = "cut" /\ mut.pos < sz THEN "prefix" ELSE "same", size |-> sz, need |-> need]
+                       ELSE [mode |-> "", size |-> 0, need |-> 0],
+             c19 |-> IF c19on THEN [lo |-> r.pos, hi |-> MaxI(mut.pos + mut.w - 1, r.pos + r.plen - 1)] ELSE [lo |-> -1, hi |-> -1]])>>)
 
 \* ---- constant definitions for the configurations -------------------------
 AllIds == CatIds
